@@ -301,7 +301,9 @@ fn case(rng: &mut Rng, idx: usize, which: u8) -> String {
     let phase0 = rng.below(6283) as f64 / 1000.0;
     let toff = rng.below(1000) as f64 / 1000.0;
     let mt = rng.chance(1, 2);
-    rustradio::verif::set_stream_size(0);
+    // stream size: the default, or small enough that every block sees its input arrive in many pieces
+    let stream_size = *rng.pick(&[0usize, 65536, 262144, 0]);
+    rustradio::verif::set_stream_size(stream_size);
     let mut blocks: Vec<B> = vec![];
     let (store, rxbits, levels, sr) = if which == 0 {
         let sr = *rng.pick(&[44100.0f64, 48000.0, 50000.0]);
@@ -316,6 +318,7 @@ fn case(rng: &mut Rng, idx: usize, which: u8) -> String {
         let (s, b) = chain9600(iq, sr as Float, &mut blocks, which == 2);
         (s, b, levels, sr)
     };
+    rustradio::verif::set_stream_size(0);
     let res = run_blocks(blocks, mt);
     let got = store.lock().unwrap().clone();
     let fe = front_end_ok(&rxbits.lock().unwrap(), &levels);
@@ -346,7 +349,7 @@ fn case(rng: &mut Rng, idx: usize, which: u8) -> String {
         eprintln!("rx bits   {}: {}", r.len(), r.iter().skip(180).take(140).map(|b| b.to_string()).collect::<String>());
     }
     let detail = format!(
-        "{} #{idx} sr={sr} frames={nframes} lens={:?} preamble={preamble} phase={phase0:.3} toff={toff:.3} {}",
+        "{} #{idx} sr={sr} stream={stream_size} frames={nframes} lens={:?} preamble={preamble} phase={phase0:.3} toff={toff:.3} {}",
         match which { 0 => "afsk1200", 1 => "g3ruh9600-zerocrossing", _ => "g3ruh9600-symbolsync(example as written)" },
         payloads.iter().map(|p| p.len()).collect::<Vec<_>>(),
         if mt { "mt" } else { "st" }
